@@ -39,6 +39,7 @@ EXPLANATION = (
     "positive numeric constants. Timer accuracy of the event loop is trusted. "
     "(X3b) No strict decode / int() on peer bytes is reachable in the timer callback before the close unless covered by a handler that still closes. (X5) close() of the transport facade reaches the TCP close on every normal path. "
     "(X6) The package's own structlog processors cannot raise on a lookup."
+    ' (X6, extended) augmented assignment to a mapping element loads it; tuple-unpacking a split() result and int()/float() of event content outside a try can raise.'
 )
 
 
@@ -241,8 +242,29 @@ def rule_x6(chk: Check) -> None:
         for node in g.nodes:
             if node.ast is None or node.kind not in ("stmt", "test"):
                 continue
-            for sub in walk(node.ast):
-                if not (isinstance(sub, ast.Subscript) and isinstance(sub.ctx, ast.Load)) or isinstance(sub.slice, ast.Slice):
+            # tuple-unpacking the result of split(): ValueError unless the number of parts is fixed
+            if isinstance(node.ast, ast.Assign) and isinstance(node.ast.targets[0], (ast.Tuple, ast.List)) and isinstance(node.ast.value, ast.Call) and method_call(node.ast.value) and method_call(node.ast.value)[1] in ("split", "rsplit"):
+                n += 1
+                chk.finding(
+                    "X6", fi.key, f"processor-may-raise:{norm(node.ast)[:50]}",
+                    f"the log processor unpacks `{norm(node.ast.value)}` into {len(node.ast.targets[0].elts)} names: ValueError when the text splits into another number of parts (use partition). Log calls sit before the response is written and before the connection is closed, so the exception ends those callbacks with nothing sent / a completed operation reported as failed",
+                    node.where(),
+                )
+                chk.ob("X6", f"{fi.key}: `{norm(node.ast)[:50]}` cannot raise", False)
+            # int() / float() of event content
+            for c in calls(node.ast):
+                if dotted(c.func) in ("int", "float") and c.args and not isinstance(c.args[0], ast.Constant):
+                    inside_try = any(isinstance(t, ast.Try) and any(c is y for b in t.body for y in ast.walk(b)) and any(h.type is None or (dotted(h.type) or "") in ("Exception", "ValueError", "BaseException") or (isinstance(h.type, ast.Tuple) and any((dotted(e) or "") in ("Exception", "ValueError") for e in h.type.elts)) for h in t.handlers) for t in ast.walk(fi.node))
+                    n += 1
+                    if not inside_try:
+                        chk.finding("X6", fi.key, f"processor-may-raise:{norm(c)[:50]}", f"the log processor evaluates `{norm(c)}` on event content outside a try: ValueError for text that is not a number", node.where())
+                    chk.ob("X6", f"{fi.key}: `{norm(c)[:50]}` cannot raise", inside_try)
+            subs = [sub for sub in walk(node.ast) if isinstance(sub, ast.Subscript) and isinstance(sub.ctx, ast.Load)]
+            # `d[k] += 1` loads d[k] although its context is Store
+            if isinstance(node.ast, ast.AugAssign) and isinstance(node.ast.target, ast.Subscript):
+                subs.append(node.ast.target)
+            for sub in subs:
+                if isinstance(sub.slice, ast.Slice):
                     continue
                 if isinstance(sub.value, ast.Name) and sub.value.id in ("dict", "list", "tuple", "set"):
                     continue
